@@ -155,3 +155,54 @@ def mog_harnesses(tier):
     if tier != "quick":
         hs += [mog_logprob_harness(3, 2, True), mog_logprob_harness(1, 3, False)]
     return hs
+
+
+# ------------------------------------------------------------------------------------------------------------------
+# gaussian_kde_log_eval (utils/torchutils.py): log of the equal-weight mixture of N isotropic Gaussians centred on the samples
+# ------------------------------------------------------------------------------------------------------------------
+def kde_harness(N, D):
+    """N and D are chosen so that the bandwidth N**(-1/(D+4)) and 1/bandwidth**2 are exact in binary floating point (1 or 1/2): the
+    constants CPython computes in floats are then the mathematical ones and the closed form is an identity over the reals."""
+    import fractions
+    from nflows.utils import torchutils as tu
+
+    def run(h, ctx):
+        s = h.inp("samples", (N, D)); q = h.inp("query", (D,))
+        return tu.gaussian_kde_log_eval(s, q)
+
+    def post(h, ctx, res):
+        from tsv.ops import s_exp, s_log
+        ps = P(h.inputs["samples"]); pq = P(h.inputs["query"]); pr = P(res)
+        ensure(h, ctx, "C05.kde.shape", z3.BoolVal(tuple(pr.shape) == ()))
+        std = N ** (-1 / (D + 4))
+        f = fractions.Fraction(std)
+        sig = z3.RealVal(f"{f.numerator}/{f.denominator}")
+        comps = []
+        for n in range(N):
+            sq = rv(0)
+            for d in range(D): sq = sq + (pq[d] - ps[n, d]) * (pq[d] - ps[n, d])
+            lg = lambda v, one: rv(0) if one else T.logf(v)
+            comps.append(s_exp(-lg(rv(N), N == 1) - rv(D) / 2 * T.logf(2 * T.PI) - rv(D) * lg(sig, f == 1) - sq / (2 * sig * sig)))
+        tot = comps[0]
+        for c in comps[1:]: tot = tot + c
+        # log of (1/N) sum_n N(q; s_n, sig^2 I): an equal-weight mixture of normalised Gaussians (normalised by lemma 4f-style linearity of the integral)
+        ensure(h, ctx, "C05.kde.is-log-of-equal-weight-gaussian-mixture", pr[()] == s_log(tot))
+
+    def native_clauses(h, inp, res):
+        if D != 1:
+            return {}
+        g = torch.linspace(-40.0, 40.0, 16001, dtype=torch.float64)
+        s = torch.as_tensor(inp["samples"], dtype=torch.float32); g = g.float()
+        if float(s.abs().max()) > 30:
+            return {}
+        lp = torch.stack([tu.gaussian_kde_log_eval(s, g[i:i + 1]) for i in range(0, len(g), 16)])
+        mass = float(torch.exp(lp).sum() * (80.0 / 16000) * 16)
+        return {"C05.kde.is-log-of-equal-weight-gaussian-mixture": abs(mass - 1.0) < 5e-3}
+
+    hn = Harness(f"gaussian_kde_log_eval[N={N},D={D}]", run, post, native_call=lambda h, inp: tu.gaussian_kde_log_eval(torch.as_tensor(inp["samples"], dtype=torch.float32), torch.as_tensor(inp["query"], dtype=torch.float32)),  # torch.eye(D) is float32: the function only accepts single precision
+                 native_clauses=native_clauses, functions=[tu.gaussian_kde_log_eval])
+    return hn
+
+
+def kde_harnesses(tier):
+    return [kde_harness(1, 1), kde_harness(1, 2), kde_harness(32, 1)] + ([kde_harness(64, 2)] if tier != "quick" else [])
